@@ -11,16 +11,29 @@ from .extract import is_static, OrderedSet
 EXC_NAMES = {"RuntimeError", "TypeError", "ValueError", "KeyError", "Exception", "NotImplementedError", "ImportError", "IndexError"}
 
 
+class Star:
+    """`*xs` / `**kw` of a symbolic (unknown-length) collection, forwarded whole to the callee's *args / **kwargs"""
+    def __init__(self, v):
+        self.v = v
+
+
 def eval_args(I, e: ast.Call):
     pos, kw = [], {}
     for a in e.args:
         if isinstance(a, ast.Starred):
-            pos.extend(I.iter_concrete(I.eval(a.value), a))
+            v = I.eval(a.value)
+            if isinstance(v, (SAdt, SOpaque)):
+                pos.append(Star(v))
+            else:
+                pos.extend(I.iter_concrete(v, a))
         else:
             pos.append(I.eval(a))
     for k in e.keywords:
         if k.arg is None:
             d = I.eval(k.value)
+            if isinstance(d, (SAdt, SOpaque)):
+                kw["**"] = Star(d)
+                continue
             for kk, vv in I.dict_items(d, e):
                 if not (isinstance(kk, SStr) and z3.is_string_value(z3.simplify(kk.t))):
                     raise Unsupported("**kwargs with symbolic keys")
@@ -218,7 +231,9 @@ def call_method(I, obj, meth, pos, kw, node):
         return call_function(I, q, [obj] + pos, kw, node)
     q = I.contracts.method(cls, meth) if cls else None
     if q is not None:
-        return call_function(I, q, [obj] + pos, kw, node)
+        if is_static(I.src.find(q)):
+            return call_function(I, q, pos, kw, node)
+        return call_function(I, q, [obj] + pos, kw, node, bound_self=True)
     if cls == "str":
         return str_method(I, I.as_str(obj, node), meth, pos, kw, node)
     if cls in ("dict", "set") and isinstance(obj, (PyDict, PyConst)):
@@ -312,16 +327,29 @@ def bind_params(I, qualname, pos, kw, node):
         raise Unsupported(f"too many positional arguments for {qualname}")
     for n in names:
         if pos:
+            if isinstance(pos[0], Star):
+                raise Unsupported(f"*args of unknown length spread over named parameters of {qualname}")
             bound[n] = pos.pop(0)
     if a.vararg is not None:
-        bound[a.vararg.arg] = PySeq(pos, "tuple", True)
+        if any(isinstance(x, Star) for x in pos):
+            if len(pos) != 1:
+                raise Unsupported("*args of unknown length mixed with other positional arguments")
+            bound[a.vararg.arg] = pos[0].v
+        else:
+            bound[a.vararg.arg] = PySeq(pos, "tuple", True)
     kw = dict(kw)
+    star_kw = kw.pop("**", None)
+    if star_kw is not None:
+        if a.kwarg is None or kw and any(k not in names + [x.arg for x in a.kwonlyargs] for k in kw):
+            raise Unsupported("**kwargs of unknown keys mixed with other unmatched keywords")
     for n in names + [x.arg for x in a.kwonlyargs]:
         if n in kw:
             if n in bound:
                 raise Unsupported("duplicate argument")
             bound[n] = kw.pop(n)
-    if a.kwarg is not None:
+    if a.kwarg is not None and star_kw is not None:
+        bound[a.kwarg.arg] = star_kw.v
+    elif a.kwarg is not None:
         bound[a.kwarg.arg] = PyDict([(SStr(z3.StringVal(k)), v) for k, v in kw.items()], True)
     elif kw:
         raise Unsupported(f"unexpected keyword {list(kw)} for {qualname}")
@@ -364,7 +392,27 @@ def spec_term(I, src, env, cname, want=None) -> Val:
     return I.w.eval(ast.parse(src, mode="eval").body, env, SpecFn(cname, [], want or "?", "spec"), want=want)
 
 
-def call_function(I, qualname, pos, kw, node) -> SV:
+def arg_expr(I, qualname, pname, node, bound_self):
+    """AST expression of the call argument bound to parameter `pname` (for write-back of mutations)"""
+    fn = I.src.find(qualname)
+    names = [x.arg for x in fn.args.posonlyargs + fn.args.args]
+    if not isinstance(node, ast.Call):
+        return None
+    for k in node.keywords:
+        if k.arg == pname:
+            return k.value
+    if pname in names:
+        i = names.index(pname)
+        if bound_self:
+            if i == 0:
+                return node.func.value if isinstance(node.func, ast.Attribute) else None
+            i -= 1
+        if i < len(node.args) and not any(isinstance(a, ast.Starred) for a in node.args[:i + 1]):
+            return node.args[i]
+    return None
+
+
+def call_function(I, qualname, pos, kw, node, bound_self=False) -> SV:
     if not I.contracts.has(qualname) or I.contracts.get(qualname).inline:
         return inline_call(I, qualname, pos, kw, node)
     c = I.contracts.get(qualname)
@@ -384,6 +432,12 @@ def call_function(I, qualname, pos, kw, node) -> SV:
     for exc, cond in c.raises:
         if I.branch(spec_bool(I, cond, env, c.name)):
             raise _Raise(SExc(exc, []), line)
+    for m, pexpr in c.post.items():
+        newv = I.from_val(spec_term(I, pexpr, env, c.name, want=c.sort_of(m)))
+        tgt = arg_expr(I, qualname, m, node, bound_self)
+        if tgt is None:
+            raise Unsupported(f"cannot locate the argument expression for mutated parameter `{m}` of {qualname}")
+        I.writeback(tgt, newv, node)
     if c.returns == "None":
         return SNone()
     # ensures of the form `result == E` give the result directly
